@@ -5,6 +5,7 @@ import Rox.Spec.Tree
 import Rox.Parse
 import Rox.Lemmas.DocSpans
 import Rox.Lemmas.RangeOrd
+import Rox.Lemmas.Shape
 import Rox.Props.C01
 
 namespace Rox.Props.C13
@@ -76,5 +77,16 @@ theorem parsed_ranges_valid (txt : Bytes) (hv : ValidUtf8 txt) (opt : Opt) (d : 
     have hn : d.attrs[i]? = some d.attrs[i] := by simp [hi]
     have e := (hs.attrs i _ hn).2.2
     exact ⟨ho.2 i _ hn, e.2.1, e.2.2.1, e.2.2.2⟩
+
+/-- **A range designates the construct it belongs to** (all valid UTF-8 inputs, all options with the
+`positions` feature on; nodes created inside an entity expansion included): the slice of an element
+begins with `<` and ends with the `>` of its end (or empty-element) tag, and its local name stands
+inside it right after the `<` or after `prefix:`; a borrowed comment's slice is exactly `<!--` text
+`-->`; a PI's slice is `<?` target … `?>`; a borrowed text value is its own slice, or the
+`<![CDATA[` … `]]>` section around it is. -/
+theorem parsed_ranges_designate (txt : Bytes) (hv : ValidUtf8 txt) (opt : Opt)
+    (hp : opt.positions = true) (d : Doc) (h : parse Generated.tables txt opt = .ok d) :
+    ∀ (i : Nat) (n : NodeData), d.nodes[i]? = some n → Rox.Lemmas.NodeShape txt n :=
+  Rox.Lemmas.parse_nodeShape Generated.tables C01.generated_tables_ok txt hv opt hp d h
 
 end Rox.Props.C13
